@@ -452,6 +452,17 @@ pub fn bitmap_driver(data: &[u8], ctx: &[Vec<u8>], a: [u32; 3], w: &mut Walker) 
         match r {
             Some(Ok(d)) => {
                 w.tagb(1);
+                match &d.metrics {
+                    read_fonts::tables::bitmap::BitmapMetrics::Small(m) => {
+                        w.u(((m.height() as u64) << 8) | m.width() as u64);
+                        w.i(((m.bearing_x() as i64) << 16) ^ ((m.bearing_y() as i64) << 8) ^ m.advance() as i64);
+                    }
+                    read_fonts::tables::bitmap::BitmapMetrics::Big(m) => {
+                        w.u(((m.height() as u64) << 8) | m.width() as u64);
+                        w.i(((m.hori_bearing_x() as i64) << 24) ^ ((m.hori_bearing_y() as i64) << 16) ^ ((m.vert_bearing_x() as i64) << 8) ^ m.vert_bearing_y() as i64);
+                        w.u(((m.hori_advance() as u64) << 8) | m.vert_advance() as u64);
+                    }
+                }
                 match d.content {
                     BitmapContent::Data(fmt, bytes) => {
                         w.u(fmt as u64);
@@ -467,15 +478,18 @@ pub fn bitmap_driver(data: &[u8], ctx: &[Vec<u8>], a: [u32; 3], w: &mut Walker) 
     };
     w.u(sizes.len() as u64);
     for (si, size) in sizes.iter().enumerate() {
-        if si >= 8 || !w.step() {
+        if si >= 64 || !w.step() {
             break;
         }
         let s = size.start_glyph_index().to_u32();
         let e = size.end_glyph_index().to_u32();
-        let mut gids: Vec<u32> = (s..=e.min(s.saturating_add(64))).collect();
+        let mut gids: Vec<u32> = (s..=e.min(s.saturating_add(1024))).collect();
         gids.extend(gid_boundaries(s));
         gids.extend(gid_boundaries(e));
         for g in gids {
+            if !w.step() {
+                break;
+            }
             match size.location(offset_data, GlyphId::new(g)) {
                 Ok(loc) => {
                     w.u(loc.format as u64);
